@@ -322,7 +322,15 @@ func BuildCte(query *Query, expr *sqlparser.With) error {
 	query.data = data
 	for _, cte := range expr.CTEs {
 		copy := *cte
+		evaluating := false
 		query.data[copy.ID.String()] = CteEvaluation(func() (any, error) {
+			// a CTE whose body reads the CTE itself, directly or through another CTE,
+			// would be evaluated without end
+			if evaluating {
+				return nil, UNSUPPORTED_CASE.Extend(fmt.Sprintf("the common table expression %s refers to itself", copy.ID.String()))
+			}
+			evaluating = true
+			defer func() { evaluating = false }()
 			query, err := Prepare(query.data, copy.Subquery, query.options)
 			if err != nil {
 				return nil, err
